@@ -21,6 +21,7 @@ EXPLANATION = (
     "joined with \", \"), the template path uses stringify_arg::<false> and doubles '$'; in "
     "write_string_complex the copy cursor is advanced past every escaped byte on every path."
     " Later additions: the JSON keys of Resource (incl. `permission`) are the established ones and PermissionMask / Resource / ResourceType decode through serde's derived code (errors are not swallowed into the default mask); the exception bin is keyed by the script text alone (C16.2); use_resources replaces the storage (C13.5); neither legacy conversion filters entries (the empty string is the blanket exception)."
+    " Round 6: recursive_dependencies reports Ok only after the gate accepted this rule's permission, and tests `already present` on the resolved resource's name; a scriptlet exception removes exactly the identical injection (C16.6 borrowed)."
 )
 NOT_DECIDED = ("That the emitted literal round-trips for every string (value level); +js argument-list "
                "unescaping semantics; identical-injection exception matching is checked in C16.")
@@ -52,6 +53,8 @@ def check(run):
             label="+js(...) argument splitting (every slice offset is a reviewed one)"))
         b = run.borrow("C16", only=r"inject_script", why="scriptlet exceptions are applied after all injections are collected")
         run.guard("C18.via.C16.3.populate-before-prune", cfg, lambda: _C16.rule_order(b, F, cfg))
+        b166 = run.borrow("C16", why="a scriptlet exception removes exactly the identical injection, a blanket one removes all")
+        run.guard("C18.via.C16.6.blanket-script-exception", cfg, lambda: _C16.rule_blanket_flag(b166, F, cfg))
         run.guard("C18.via.C16.8.independent-injections", cfg, lambda: _C16.rule_independent_injections(run.borrow("C16", why="a scriptlet another list may not use must not suppress the others"), F, cfg))
         from . import C08 as _C08
         b8 = run.borrow("C08", only=r"stores-unconditional|restores-unconditional|accumulating|visits-every-element", why="the blanket scriptlet exception must survive serialization")
@@ -184,6 +187,31 @@ def rule_gate(run, F, cfg):
         run.ob("C18.2.gate-provenance", f"{name.split('::')[-1]}:no-raw-lookup", not raw,
                f"{name} performs no ungated resource lookup", config=cfg)
     run.floor("C18.2.gate-provenance", f"dependency pushes [{cfg}]", n, 2)
+    # a dependency that is already in the list may have been put there for a rule with more permissions:
+    # recursive_dependencies may report success only after the gate accepted THIS rule's permission ...
+    from analysis.guards import conditional_defs as _cd
+    rd = F.fn(S + "recursive_dependencies")
+    oks = [conds for kind, b, val, conds, _ in _cd(rd, 0) if "Result::Ok" in val]
+    ok = bool(oks) and all(has_cond(c, r"^discr\(resources::resource_storage::ResourceStorage::get_permissioned_resource\("
+                                       r"arg:self, arg:new_dep, arg:filter_permission\)\)$", 0) for c in oks)
+    run.ob("C18.2.gate-provenance", "recursive_dependencies:ok-only-after-gate", ok,
+           f"every `Ok(())` of recursive_dependencies ({len(oks)} sites) is reached only after "
+           "get_permissioned_resource(new_dep, filter_permission) succeeded -- also when the dependency is "
+           "already in the list", site=rd.loc(0), config=cfg,
+           detail="otherwise a scriptlet of an unprivileged list is injected whenever a privileged rule on the "
+                  "same page happened to pull the shared dependency in first (hash-map order)")
+    # ... and `already present` is decided on the resolved resource's name, not on the requested name, which may
+    # be an alias (an alias cycle would otherwise recurse without bound)
+    cmp_ = [c.expr_local(0) for c in F.closures_of(rd.name)]
+    ok = bool(cmp_) and all(re.match(r"^<std::string::String as std::cmp::PartialEq(<[^>]*>)?>::eq\(arg:\w+\.name, "
+                                     r"up:\w+\.name\)$", e) or re.match(
+                                     r"^<std::string::String as std::cmp::PartialEq(<[^>]*>)?>::eq\(up:\w+\.name, "
+                                     r"arg:\w+\.name\)$", e) for e in cmp_)
+    run.ob("C18.2.gate-provenance", "recursive_dependencies:present-by-resolved-name", ok,
+           f"the `already in the list` test compares resource names with the resolved resource's name ({cmp_})",
+           site=rd.loc(0), config=cfg,
+           detail="comparing with the requested name misses a resource requested through an alias: duplicates, "
+                  "and unbounded recursion on a dependency cycle that goes through aliases")
     g = F.fn(S + "get_scriptlet_resource")
     dec = g.calls(r"Engine>::decode$|::decode$")
     okd = bool(dec) and all("get_permissioned_resource(" in g.expr_operand(t["args"][-1]) for b, t in dec)
